@@ -28,6 +28,10 @@ def main(d: str, n: str, seed: str, tier: str) -> None:
     bad = [r for r in runs if r["status"] == "builderror"]
     if bad:
         raise MachineryError(f"{len(bad)} specs could not be built: {bad[0]['name']}: {bad[0]['info']}")
+    # continued runs of restored snapshots (C19) are traces of their own
+    for r in list(runs):
+        for lr in r.get("loaded", []):
+            runs.append(lr)
     traced = [r for r in runs if r["events"]]
     results = []
     states = 0
@@ -37,7 +41,7 @@ def main(d: str, n: str, seed: str, tier: str) -> None:
         states += v["states"]
         for r, t in zip(v["results"], traced[i:i + CHUNK]):
             assert r["name"] == t["name"], (r["name"], t["name"])
-            results.append({"name": t["name"], "n": r["n"], "viol": r["viol"]})
+            results.append({"name": t["name"], "n": r["n"], "viol": r["viol"], "dump_event": t.get("dump_event")})
         (d / "tlc" / f"chunk{i // CHUNK}.json").unlink()
     t_tlc = time.time() - t1
     with gzip.open(d / "traces.json.gz", "wt") as f:
